@@ -35,7 +35,7 @@ type ubackend struct {
 
 // call is one updater call; the backends/hosts are those of input.UBackends.
 type call struct {
-	Kind string `json:"kind"` // host | backend
+	Kind string `json:"kind"` // host | backend | commit (the instance update between two syncs)
 	Name string `json:"name"`
 	// Shift > 0: the backend is processed again as after a partial sync: its paths are reset
 	// and path i now carries the annotation set (Ing+Shift) mod len(Ingresses)
@@ -148,6 +148,14 @@ func genUpdater(rng *rand.Rand) input {
 	for _, i := range perm {
 		in.Calls = append(in.Calls, call{Kind: "backend", Name: in.UBackends[i].Name})
 	}
+	if rng.Intn(3) == 0 && len(in.Calls) > 2 {
+		// the controller writes and commits between two syncs: the rest happens in a later one
+		at := 1 + rng.Intn(len(in.Calls)-1)
+		in.Calls = append(in.Calls[:at], append([]call{{Kind: "commit"}}, in.Calls[at:]...)...)
+		if rng.Intn(2) == 0 {
+			in.Global["auth-proxy"] = pick(rng, []string{"_front__auth__local:14415-14415", "_front__auth__local:14415-14416"})
+		}
+	}
 	if rng.Intn(3) == 0 && nann > 1 {
 		if rng.Intn(2) == 0 {
 			// a short range, so that the binds the first pass leaves behind are in the way
@@ -197,6 +205,16 @@ func updaterCorpus() []input {
 			{Namespace: "team-b", Name: "ing2", Ann: annOf(kURL, "svc://authsvc:9090/check", kPlace, "frontend")}},
 			[]ubackend{{Name: "app1", Paths: []upath{{"a.local", "/", 0}}}, {Name: "app2", Paths: []upath{{"b.local", "/", 1}}}, {Name: "app3", Paths: []upath{{"c.local", "/", 2}}}},
 			"host:a.local", "host:b.local", "host:c.local", "backend:app1", "backend:app2", "backend:app3"),
+		// one port; app1 takes it, the changes are committed, then app2 of another service comes:
+		// the bind of the untouched app1 is referenced and stays, app2 is denied
+		func() input {
+			in := std(map[string]string{"auth-proxy": "_front__auth__local:14415-14415"},
+				[]ingIn{{Name: "ing1", Ann: annOf(kURL, "http://10.0.0.1/auth")}, {Name: "ing2", Ann: annOf(kURL, "http://10.0.0.2/auth")}},
+				[]ubackend{{Name: "app1", Paths: []upath{{"a.local", "/", 0}}}, {Name: "app2", Paths: []upath{{"b.local", "/", 1}}}},
+				"host:a.local", "host:b.local", "backend:app1")
+			in.Calls = append(in.Calls, call{Kind: "commit"}, call{Kind: "backend", Name: "app2"})
+			return in
+		}(),
 		// frontend placement lost to a sibling of the same host
 		std(nil, []ingIn{{Name: "ing0", Ann: annOf(kURL, "http://10.0.0.3:8000/auth", kPlace, "backend")}, {Name: "ing1", Ann: annOf(kURL, "http://10.0.0.2:8000/auth", kPlace, "frontend")}},
 			[]ubackend{{Name: "app1", Paths: []upath{{"h1.local", "/pub", 0}, {"h1.local", "/app", 1}}}},
@@ -286,6 +304,7 @@ type updObs struct {
 	xfront   []c1819.AuthRule
 	fprobes  []probeObs
 	released int
+	used     [][]int        // per host/backend call: ports of the names the real objects reference
 	targets  map[string]int // target key -> id
 	urls     map[string]urlInfo
 }
@@ -449,14 +468,25 @@ func runUpdater(in input, scratch string) *updObs {
 	}
 	p.Log.Msgs = nil
 	called := map[string]bool{}
+	stale := map[string]bool{} // acquired before the last commit
 	for ci, c := range in.Calls {
 		switch c.Kind {
+		case "commit":
+			// maps and files written, changes committed: what was added so far is not
+			// "added in the current sync" any more
+			if _, err := p.Write(); err != nil {
+				panic(fmt.Sprintf("updater commit: %v", err))
+			}
+			for name := range backs {
+				stale[name] = true
+			}
 		case "host":
 			h := hc.Hosts().FindHost(c.Name)
 			if h == nil || hmap[c.Name] == nil || called["h "+c.Name] {
 				continue
 			}
 			called["h "+c.Name] = true
+			obs.used = append(obs.used, realUsed(hc))
 			upd.UpdateHostConfig(h, hmap[c.Name])
 			ho := uhostObs{Name: c.Name, call: ci}
 			for _, hp := range h.Paths {
@@ -473,7 +503,20 @@ func runUpdater(in input, scratch string) *updObs {
 			if be == nil {
 				continue
 			}
-			if called["b "+c.Name] {
+			if stale[c.Name] {
+				// a backend touched by a later sync is removed and built again, as the partial
+				// sync of the converter does: it is one of the backends "added" in this sync,
+				// the others are untouched
+				id := be.ID
+				hc.Backends().RemoveAll([]string{id})
+				be = hc.Backends().AcquireBackend("default", c.Name, "8080")
+				be.AcquireEndpoint("172.17.0.11", 8080, "")
+				for _, up := range ubs[c.Name].Paths {
+					be.AddBackendPath(links[up.Host+" "+up.Path])
+				}
+				backs[c.Name] = be
+				stale[c.Name] = false
+			} else if called["b "+c.Name] {
 				// processed again: as a rebuilt backend, the paths start from scratch
 				for _, bp := range be.Paths {
 					bp.AuthExternal = hatypes.AuthExternal{}
@@ -490,6 +533,7 @@ func runUpdater(in input, scratch string) *updObs {
 					mapper.AddAnnotations(src(i), links[up.Host+" "+up.Path], ann)
 				}
 			}
+			obs.used = append(obs.used, realUsed(hc))
 			before := map[string]string{}
 			for _, b := range hc.Frontend().AuthProxy.BindList {
 				before[b.AuthBackendName] = b.Backend.String()
@@ -589,6 +633,31 @@ func runUpdater(in input, scratch string) *updObs {
 		}
 	}
 	return obs
+}
+
+// realUsed: what setAuthExternal would hand to RemoveAuthBackendExcept right now: the real
+// Backends().BuildUsedAuthBackends() plus the names held by the host paths
+func realUsed(hc interface {
+	Backends() *hatypes.Backends
+	Hosts() *hatypes.Hosts
+}) []int {
+	names := hc.Backends().BuildUsedAuthBackends()
+	for _, h := range hc.Hosts().Items() {
+		for _, hp := range h.Paths {
+			if hp.AuthExt != nil && hp.AuthExt.AuthBackendName != "" {
+				names[hp.AuthExt.AuthBackendName] = true
+			}
+		}
+	}
+	var out []int
+	for n := range names {
+		if m := authNameRe.FindStringSubmatch(n); m != nil {
+			p, _ := strconv.Atoi(m[1])
+			out = append(out, p)
+		}
+	}
+	sort.Ints(out)
+	return out
 }
 
 // xfilter keeps the rules the Cors and AuthExternal blocks emit (Model/AuthRules.v)
@@ -1145,6 +1214,8 @@ func coqCase(id int, in input, uo *updObs) string {
 	hostDone := map[string]bool{}
 	for ci, cl := range in.Calls {
 		switch cl.Kind {
+		case "commit":
+			calls = append(calls, "UCommit")
 		case "host":
 			ho, ok := hostObsBy[cl.Name]
 			if !ok || hostDone[cl.Name] {
@@ -1323,6 +1394,14 @@ func coqCase(id int, in input, uo *updObs) string {
 		}
 		idmaps = append(idmaps, hx.Tuple(hx.N(c.backIdx[bo.ID]), hx.List(es)))
 	}
+	var used []string
+	for _, u := range uo.used {
+		var ps []string
+		for _, p := range u {
+			ps = append(ps, hx.Z(int64(p)))
+		}
+		used = append(used, hx.List(ps))
+	}
 	var tags []int
 	for t := range c.extras {
 		tags = append(tags, t)
@@ -1331,9 +1410,9 @@ func coqCase(id int, in input, uo *updObs) string {
 	for _, t := range tags {
 		extras = append(extras, hx.Tuple(hx.N(t), c.extras[t]))
 	}
-	return fmt.Sprintf("{| uid := %s; ulua := %s; ustart := %s; uend := %s;\n   ucalls := %s;\n   uhosts := %s;\n   ubacks := %s;\n   ubinds := %s; uhorder := %s;\n   ufront := %s;\n   urules := %s;\n   uextras := %s;\n   uxbacks := %s;\n   uxfront := %s;\n   uprobes := %s;\n   uidmaps := %s |}",
+	return fmt.Sprintf("{| uid := %s; ulua := %s; ustart := %s; uend := %s;\n   ucalls := %s;\n   uhosts := %s;\n   ubacks := %s;\n   ubinds := %s; uhorder := %s;\n   ufront := %s;\n   urules := %s;\n   uextras := %s;\n   uxbacks := %s;\n   uxfront := %s;\n   uprobes := %s;\n   uidmaps := %s;\n   uused := %s |}",
 		hx.N(id), hx.Bool(lua), hx.Z(int64(start)), hx.Z(int64(end)), hx.List(calls), hx.List(hostsObs), hx.List(backsObs),
-		hx.List(binds), hx.List(horder), hx.List(front), hx.List(rulesObs), hx.List(extras), hx.List(xbacks), xfront, hx.List(probes), hx.List(idmaps))
+		hx.List(binds), hx.List(horder), hx.List(front), hx.List(rulesObs), hx.List(extras), hx.List(xbacks), xfront, hx.List(probes), hx.List(idmaps), hx.List(used))
 }
 
 var _ = json.Marshal
